@@ -41,5 +41,5 @@ def jobs(tier):
     return [job('protectName.N%d' % N, H_SYM, N, note='exhaustive over all names of at most %d bytes without | and backslash' % N, weight=10),
             job('protectName.keywords', H_KW, 4, note='every keyword rule of smt2newlexer.ll')]
 def info(tier, results):
-    return {'level': 'proof', 'trusted_base': ['clang 14 AST', 'osmt2c lowering', 'CBMC 6.11'],
+    return {'level': 'other' if all(r['tier']=='S' or r.get('bounded_note') for r in results) else 'proof', 'trusted_base': ['clang 14 AST', 'osmt2c lowering', 'CBMC 6.11'],
             'assumptions': ['std::string / std::unordered_set behave as the stubs of contracts/C17/protect.h', 'the reference recogniser in protect.h is a faithful reading of smt2newlexer.ll (keywords are re-read from the file on every run)'], 'explanation': ''}
